@@ -3,16 +3,21 @@
 (`Queue`, the worker classes' `start`/`join`, `FunRunner.WORK_QUEUE/RESULTS_QUEUE`) are rebound for the duration of a run"""
 import multiprocessing
 
-from . import simsched
+from . import simsched, core
 from .simsched import Scheduler, SimQueue
 
 
 class FCfg:
-    def __init__(self, n_workers=2, mulp=False, calls=((3, 1),)):
-        """calls: (items, chunk_size) — chunk size is 1 for mul_p_map"""
+    def __init__(self, n_workers=2, mulp=False, calls=((3, 1),), exact=False):
+        """calls: (items, chunk_size) — chunk size is 1 for mul_p_map;
+        exact: the caller takes exactly as many results as there are items (zip / islice style) and drops the generator
+        instead of running it into StopIteration.  The model's caller always exhausts the generator (it then polls the
+        result queue once more), so these runs are judged by the oracle only (`oracle_only`)"""
         self.n_workers = n_workers
         self.mulp = mulp
         self.calls = [tuple(c) for c in calls]
+        self.exact = exact
+        self.oracle_only = bool(exact)
 
     def cap(self):
         return multiprocessing.cpu_count() if self.mulp else self.n_workers
@@ -22,11 +27,11 @@ class FCfg:
         return f"cfg {self.n_workers} {self.cap()} {1 if self.mulp else 0} {chunks}".rstrip()
 
     def to_json(self):
-        return dict(n_workers=self.n_workers, mulp=self.mulp, calls=self.calls)
+        return dict(n_workers=self.n_workers, mulp=self.mulp, calls=self.calls, exact=self.exact)
 
 
 def f(x):
-    return x * 3 + 1
+    return core.pool_f(x, 3)
 
 
 class FSimEnv:
@@ -96,8 +101,14 @@ class FSimEnv:
                 for k, (n, cs) in enumerate(self.cfg.calls):
                     res = []
                     self.results.append(res)
-                    for x in m((k * 1000 + i for i in range(n)), cs):
-                        res.append(x)
+                    it = m((k * 1000 + i for i in range(n)), cs)
+                    if self.cfg.exact and n > 0:
+                        for _ in range(n):
+                            res.append(next(it))
+                        it.close()
+                    else:
+                        for x in it:
+                            res.append(x)
 
     def expected(self):
         return [[f(k * 1000 + i) for i in range(n)] for k, (n, cs) in enumerate(self.cfg.calls)]
